@@ -8,7 +8,22 @@
 
    VERDICT.  For the code as it is now the property HOLDS
    (C09_executable_executes), for inputs without user constraints and without
-   negative distances.  It was FALSE before the fix of the vehicle max-wait
+   negative distances; duration groups need no side condition.
+   It was FALSE before the repair of the duration-group defect
+   (C09_duration_groups_refuted, C09_duration_groups_refuted_vehicle): both
+   max-wait estimates stopped their simulation at the first planned stop behind
+   the insertion whose ARRIVAL is unchanged, but with duration groups the time
+   spent AT that stop depends on the stop in front of it (the group duration
+   is paid again when the predecessor is not in the group), so everything
+   behind it may move although the arrival did not.  The witness replayed on
+   the real code (move reported executable, Execute rejected it); the repair
+   makes the break additionally require that the END of that planned stop is
+   unchanged, Model/Estimates.v models the repaired estimates (sim_wait with
+   check_end = true) and keeps the old ones as est_max_wait_*_arrival_only
+   (check_end = false).  On the witnesses the repaired estimates answer
+   "violated" (C09_duration_groups_repaired_rejects); without active groups
+   the repair changes nothing (C09_check_end_equivalent_without_groups).
+   It was also FALSE before the fix of the vehicle max-wait
    estimate (C09_prefix_executable_executes_refuted): that estimate stopped its
    simulation as soon as every stop of the unit was placed and the arrival at a
    planned stop was unchanged, but the exact check accumulates the waiting time
@@ -28,14 +43,28 @@
    durations_metric inp   := forall a b c < nstops + 2 * nveh,
                                travel_duration inp a c
                                <= travel_duration inp a b + travel_duration inp b c
+   dgroups_nonneg inp     := o_dis_dgroups (in_opts inp) = true \/
+                             every group duration of in_dgroups inp is >= 0
    wait_vehicle_side inp  := has_max_wait_vehicle inp = false \/
-                             (durations_metric inp /\ stop_durations_nonneg inp)
+                             (durations_metric inp /\ stop_durations_nonneg inp /\
+                              dgroups_nonneg inp)
+   dgroups_inert inp      := o_dis_dgroups (in_opts inp) = true \/
+                             every group duration of in_dgroups inp is 0
+                             (then dgroup_extra inp a b = 0 for all a b)
      (all decidable: distances_nonneg_b, stop_durations_nonneg_b,
-      durations_metric_b with their _ok lemmas)
+      durations_metric_b, dgroups_inert_b, dgroups_nonneg_b with their _ok lemmas)
    est_max_wait_vehicle_prefix, estimate_violated_prefix, move_executable_prefix,
-   exec_checked_prefix    := the vehicle max-wait estimate BEFORE the fix
-                             (sim_wait with the guard [fun _ _ => true]) and the
-                             gate built on it; everything else as in the model
+   exec_checked_prefix    := the vehicle max-wait estimate BEFORE the fix of its
+                             guard (sim_wait true with the guard
+                             [fun _ _ => true]: the code as it is now minus the
+                             guard) and the gate built on it; everything else
+                             as in the model
+   est_max_wait_stop_arrival_only, est_max_wait_vehicle_arrival_only,
+   estimate_violated_arrival_only, move_executable_arrival_only,
+   exec_checked_arrival_only  (these ARE in Model/Estimates.v) := the max-wait
+                             estimates BEFORE the repair of the duration-group
+                             defect (sim_wait false: the break compares the
+                             arrival only) and the gate built on them
    new_cells inp s mv     := cells_from from the cached cell in front of the
                              first position over the new stop sequence behind it
                              (what propagate recomputes in exec_move)
@@ -105,7 +134,7 @@ Theorem C09_est_max_wait_stop_sound : forall inp s mv,
 Proof. exact C09_est_max_wait_stop_sound_proof. Qed.
 Print Assumptions C09_est_max_wait_stop_sound.
 
-(* the fixed estimate: no side condition on the durations *)
+(* the fixed estimate: no side condition on the travel / stop / group durations *)
 Theorem C09_est_max_wait_vehicle_sound : forall inp s mv,
   wf_input inp -> reachable inp s -> move_ok inp s mv ->
   unit_planned inp s (mv_unit mv) = false ->
@@ -192,11 +221,13 @@ Proof. exact C09_fix_only_stricter_proof. Qed.
 Print Assumptions C09_fix_only_stricter.
 
 (* what could be said before the fix: sound only for metric travel durations
-   and non-negative stop durations *)
+   and non-negative stop and group durations (a group duration is a duration
+   spent at a stop: a negative one is as harmful as a negative stop duration,
+   C09_prefix_negative_group_duration_refuted) *)
 Theorem C09_prefix_est_max_wait_vehicle_sound_partial : forall inp s mv,
   wf_input inp -> reachable inp s -> move_ok inp s mv ->
   unit_planned inp s (mv_unit mv) = false ->
-  durations_metric inp -> stop_durations_nonneg inp ->
+  durations_metric inp -> stop_durations_nonneg inp -> dgroups_nonneg inp ->
   est_max_wait_vehicle_prefix inp s mv = false ->
   Forall (cl_max_wait_vehicle inp (mv_vehicle mv)) (new_cells inp s mv).
 Proof. exact C09_prefix_est_max_wait_vehicle_sound_partial_proof. Qed.
@@ -211,6 +242,24 @@ Theorem C09_prefix_executable_executes_partial : forall inp s mv s' r,
 Proof. exact C09_prefix_executable_executes_partial_proof. Qed.
 Print Assumptions C09_prefix_executable_executes_partial.
 
+(* [dgroups_nonneg] in the two partial statements is used: metric travel
+   durations, stop durations >= 0, one group with duration -300 (witness ng_inp,
+   ng_s1, w_mvX in Estimates_proofs).  The unguarded estimate lets the move
+   through and Execute rejects it; the guarded estimate of the code as it is
+   now refuses the move. *)
+Theorem C09_prefix_negative_group_duration_refuted :
+  exists inp s mv,
+    wf_input inp /\ input_windows_ok inp /\ matrices_nonneg inp /\ stop_durations_nonneg inp /\
+    durations_metric inp /\ (forall u, In u (in_user inp) -> False) /\
+    reachable inp s /\ move_ok inp s mv /\
+    has_max_wait_vehicle inp = true /\ est_max_wait_vehicle_prefix inp s mv = false /\
+    move_executable_prefix inp s mv = true /\
+    snd (exec_checked_prefix inp s mv) = Rejected KMaxWaitVehicle /\
+    ~ dgroups_nonneg inp /\
+    est_max_wait_vehicle inp s mv = true /\ move_executable inp s mv = false.
+Proof. exact prefix_negative_group_duration_refuted. Qed.
+Print Assumptions C09_prefix_negative_group_duration_refuted.
+
 (* ---- 5. the side conditions are checkable *)
 Theorem C09_side_conditions_decidable : forall inp,
   (distances_nonneg_b inp = true -> distances_nonneg inp) /\
@@ -221,3 +270,127 @@ Proof.
                          (conj (stop_durations_nonneg_b_ok inp) (durations_metric_b_ok inp))).
 Qed.
 Print Assumptions C09_side_conditions_decidable.
+
+Theorem C09_dgroups_conditions_decidable : forall inp,
+  (dgroups_inert_b inp = true -> dgroups_inert inp) /\
+  (dgroups_nonneg_b inp = true -> dgroups_nonneg inp).
+Proof. exact (fun inp => conj (dgroups_inert_b_ok inp) (dgroups_nonneg_b_ok inp)). Qed.
+Print Assumptions C09_dgroups_conditions_decidable.
+
+(* ---- 6. DURATION GROUPS, BEFORE THE REPAIR (the early break of the max-wait
+   estimates compared the arrival only: est_max_wait_*_arrival_only and the gate
+   move_executable_arrival_only / exec_checked_arrival_only built on them).
+   Witness (dg_inp, dg_s1, dg_mvU in Estimates_proofs): stops A = 0, X = 1,
+   Z = 2, U = 3, every travel duration 0, no own durations; A and X form a
+   duration group of 600 s; Z has the windows [60, 900) and [3600, 7200) and max
+   wait 60 s.  Route: first A X Z last (A pays the 600 s, X after A does not, Z
+   is reached at 600: inside its first window).  Move: U between A and X.  The
+   arrival at X is still 600 and every stop of the unit is placed: the old
+   estimate breaks and answers "not violated".  X, now visited after a stop
+   outside its group, pays the 600 s again; Z is reached at 1200, between its
+   windows, waits 2400 s and the exact check rejects the move.  Every
+   hypothesis of C09_executable_executes holds, the travel durations are
+   metric, nothing is negative, the windows are well formed. *)
+Theorem C09_duration_groups_refuted :
+  exists inp s mv s' r,
+    wf_input inp /\ input_windows_ok inp /\ matrices_nonneg inp /\ stop_durations_nonneg inp /\
+    Forall (fun g => 0 <= snd g) (in_dgroups inp) /\ durations_metric inp /\
+    (forall u, In u (in_user inp) -> False) /\
+    reachable inp s /\ move_ok inp s mv /\
+    has_max_wait_stop inp = true /\ est_max_wait_stop_arrival_only inp s mv = false /\
+    move_executable_arrival_only inp s mv = true /\
+    exec_checked_arrival_only inp s mv = (s', r) /\ r = Rejected KMaxWaitStop /\ same_obs s' s /\
+    exec_move inp s mv = (s', r) /\
+    ~ dgroups_inert inp.
+Proof. exact dg_break_refuted. Qed.
+Print Assumptions C09_duration_groups_refuted.
+
+(* the vehicle max-wait estimate (with its guard) broke at the same place: the
+   same input with a vehicle max wait of 60 s instead of Z's (dgv_inp, dgv_s1) *)
+Theorem C09_duration_groups_refuted_vehicle :
+  exists inp s mv s' r,
+    wf_input inp /\ input_windows_ok inp /\ matrices_nonneg inp /\ stop_durations_nonneg inp /\
+    Forall (fun g => 0 <= snd g) (in_dgroups inp) /\ durations_metric inp /\
+    (forall u, In u (in_user inp) -> False) /\
+    reachable inp s /\ move_ok inp s mv /\
+    has_max_wait_vehicle inp = true /\ est_max_wait_vehicle_arrival_only inp s mv = false /\
+    move_executable_arrival_only inp s mv = true /\
+    exec_checked_arrival_only inp s mv = (s', r) /\ r = Rejected KMaxWaitVehicle /\ same_obs s' s /\
+    exec_move inp s mv = (s', r) /\
+    ~ dgroups_inert inp.
+Proof. exact dg_break_refuted_vehicle. Qed.
+Print Assumptions C09_duration_groups_refuted_vehicle.
+
+(* AFTER THE REPAIR, on the same witnesses: the end of X is 1200 on the new
+   route and 600 on the old one, the break is not taken, the simulation goes on
+   to Z and the repaired estimates answer "violated": the moves are not offered
+   any more *)
+Theorem C09_duration_groups_repaired_rejects :
+  est_max_wait_stop_arrival_only dg_inp dg_s1 dg_mvU = false /\
+  est_max_wait_stop dg_inp dg_s1 dg_mvU = true /\
+  move_executable dg_inp dg_s1 dg_mvU = false /\
+  exec_checked dg_inp dg_s1 dg_mvU = (dg_s1, NotExecutable) /\
+  est_max_wait_vehicle_arrival_only dgv_inp dgv_s1 dg_mvU = false /\
+  est_max_wait_vehicle dgv_inp dgv_s1 dg_mvU = true /\
+  move_executable dgv_inp dgv_s1 dg_mvU = false /\
+  exec_checked dgv_inp dgv_s1 dg_mvU = (dgv_s1, NotExecutable).
+Proof. exact dg_repaired_rejects. Qed.
+Print Assumptions C09_duration_groups_repaired_rejects.
+
+(* without active groups the repair changes nothing: on every reachable state
+   the old and the repaired estimates, and the gates built on them, are equal
+   (for a unit that is already planned both gates answer "not executable") *)
+Theorem C09_check_end_equivalent_without_groups : forall inp s mv,
+  wf_input inp -> reachable inp s -> move_ok inp s mv -> dgroups_inert inp ->
+  (unit_planned inp s (mv_unit mv) = false ->
+   est_max_wait_stop_arrival_only inp s mv = est_max_wait_stop inp s mv /\
+   est_max_wait_vehicle_arrival_only inp s mv = est_max_wait_vehicle inp s mv /\
+   estimate_violated_arrival_only inp s mv = estimate_violated inp s mv) /\
+  move_executable_arrival_only inp s mv = move_executable inp s mv /\
+  exec_checked_arrival_only inp s mv = exec_checked inp s mv.
+Proof. exact C09_check_end_equivalent_without_groups_proof. Qed.
+Print Assumptions C09_check_end_equivalent_without_groups.
+
+(* hence the old estimates were sound when the groups are inert *)
+Theorem C09_arrival_only_est_max_wait_stop_sound_partial : forall inp s mv,
+  wf_input inp -> reachable inp s -> move_ok inp s mv ->
+  unit_planned inp s (mv_unit mv) = false ->
+  dgroups_inert inp ->
+  est_max_wait_stop_arrival_only inp s mv = false ->
+  Forall (cl_max_wait_stop inp (mv_vehicle mv)) (new_cells inp s mv).
+Proof. exact C09_arrival_only_est_max_wait_stop_sound_proof. Qed.
+Print Assumptions C09_arrival_only_est_max_wait_stop_sound_partial.
+
+Theorem C09_arrival_only_est_max_wait_vehicle_sound_partial : forall inp s mv,
+  wf_input inp -> reachable inp s -> move_ok inp s mv ->
+  unit_planned inp s (mv_unit mv) = false ->
+  dgroups_inert inp ->
+  est_max_wait_vehicle_arrival_only inp s mv = false ->
+  Forall (cl_max_wait_vehicle inp (mv_vehicle mv)) (new_cells inp s mv).
+Proof. exact C09_arrival_only_est_max_wait_vehicle_sound_proof. Qed.
+Print Assumptions C09_arrival_only_est_max_wait_vehicle_sound_partial.
+
+(* non-vacuity: the witness input with the groups switched off ([dgroups_inert]
+   holds): the move is offered by both versions of the gate and executed *)
+Theorem C09_duration_groups_off_executes :
+  dgroups_inert dg_off_inp /\
+  new_solution dg_off_inp = Some dg_off_s0 /\
+  exec_move dg_off_inp dg_off_s0 dg_mvAXZ = (dg_off_s1, Done) /\
+  move_executable_arrival_only dg_off_inp dg_off_s1 dg_mvU = true /\
+  move_executable dg_off_inp dg_off_s1 dg_mvU = true /\
+  snd (exec_checked dg_off_inp dg_off_s1 dg_mvU) = Done.
+Proof. exact dg_off_executes. Qed.
+Print Assumptions C09_duration_groups_off_executes.
+
+(* ... and with an ACTIVE group the repaired break is still taken when it may
+   be: the witness input with U in the group of A and X (dgk_inp); arrival and
+   end of X are unchanged, the move is offered and executed *)
+Theorem C09_duration_groups_on_executes :
+  ~ dgroups_inert dgk_inp /\
+  new_solution dgk_inp = Some dgk_s0 /\
+  exec_move dgk_inp dgk_s0 dg_mvAXZ = (dgk_s1, Done) /\
+  has_max_wait_stop dgk_inp = true /\
+  move_executable dgk_inp dgk_s1 dg_mvU = true /\
+  snd (exec_checked dgk_inp dgk_s1 dg_mvU) = Done.
+Proof. exact dg_groups_on_executes. Qed.
+Print Assumptions C09_duration_groups_on_executes.
